@@ -203,6 +203,27 @@ pub fn leaf(cfg: &GenCfg) -> BoxedStrategy<Node> {
     if cfg.allowed("contains") {
       v.push((small(), 0i64..=4).prop_map(move |(a, d)| Node::Un(Op::Contains(a + d), endl(a))).boxed());
     }
+    // the same with an operator that never ends the stream between the endless producer and
+    // the operator that does: the end has to travel through it
+    let through = {
+      let mut ops = vec![Op::Map(MapF::Add(1)), Op::Filter(Pred::True), Op::Tap, Op::Scan(Fold::Max), Op::Distinct, Op::Skip(1)];
+      if cfg.sched_default {
+        ops.push(Op::SubscribeOnDefault);
+        ops.push(Op::ObserveOnDefault);
+      }
+      prop::sample::select(ops)
+    };
+    v.push(
+      (small(), 0usize..=3, through.clone(), any::<bool>())
+        .prop_map(move |(a, n, op, r)| {
+          let src = if r { rep(a) } else { endl(a) };
+          // (distinct over repeat never lets a second item through: keep those bounded)
+          let op = if r && matches!(op, Op::Distinct | Op::Skip(_)) { Op::Tap } else { op };
+          Node::Un(Op::Take(n), Box::new(Node::Un(op, src)))
+        })
+        .boxed(),
+    );
+    v.push((small(), through).prop_map(move |(a, op)| Node::Un(Op::First, Box::new(Node::Un(op, endl(a))))).boxed());
     alts.push((3, proptest::strategy::Union::new(v).boxed()));
   }
   if cfg.timed {
@@ -292,6 +313,9 @@ pub fn unary_ops(cfg: &GenCfg) -> BoxedStrategy<Op> {
     v.push((2, Just(Op::ObserveOnDefault).boxed()));
     v.push((2, Just(Op::SubscribeOnDefault).boxed()));
     v.push((1, Just(Op::Timestamp).boxed()));
+    // (durations on the virtual clock; the reference interpreter does not model it, so only
+    // the model-free checks see it here - its timing is C16's)
+    v.push((1, Just(Op::TimeInterval).boxed()));
   }
   if cfg.sched_new {
     v.push((3, Just(Op::ObserveOnNew).boxed()));
